@@ -59,18 +59,21 @@ def frag_reads(header, contigs, method, idx, fr):
     paired = l2 > 0
     r1s = hi - l1 if rev else lo
     r2s = (lo if rev else hi - l2) if paired else None
-    body = fill(l1, idx * 7)
+    clip = fr.get('clip', 0)        # soft-clipped bases at R1's 5' end (moves the NlaIII / CHiC site outwards by `clip`)
+    body = fill(l1 + clip, idx * 7)
+    n1 = l1 + clip
     if method == 'nla':
         if fr['valid']:
-            seq1 = (body[:l1 - 4] + 'CATG') if rev else ('CATG' + body[:l1 - 4])
+            seq1 = (body[:n1 - 4] + 'CATG') if rev else ('CATG' + body[:n1 - 4])
         else:   # no motif at either end
-            seq1 = 'TTGG' + body[:l1 - 8] + 'GGTT'
+            seq1 = 'TTGG' + body[:n1 - 8] + 'GGTT'
         qc1 = False
     else:       # chic: every mapped R1 has a site; a rejected fragment is one whose R1 carries the qc-fail bit
         seq1 = body
         qc1 = not fr['valid']
+    cig1 = None if not clip else (('%dM%dS' % (l1, clip)) if rev else ('%dS%dM' % (clip, l1)))
     r2un = paired and fr.get('r2_unmapped', False)     # mate 2 unmapped, placed at mate 1's position
-    reads = [bamgen.make_read(header, name, cname, r1s, seq1, reverse=rev, paired=paired, read1=paired, proper=paired and not r2un,
+    reads = [bamgen.make_read(header, name, cname, r1s, seq1, cigar=cig1, reverse=rev, paired=paired, read1=paired, proper=paired and not r2un,
                               mate_contig=cname if paired else None, mate_pos=r1s if r2un else r2s,
                               mate_reverse=(not rev) if paired and not r2un else False, mate_unmapped=r2un,
                               qcfail=qc1, tags=tags, dup=fr.get('dup_in', False))]
@@ -375,8 +378,9 @@ def random_library(rng, method, big=False, n_small=0):
         rng.shuffle(lens)
         contigs = [('chr%d' % (i + 1), l) for i, l in enumerate(lens)]
     else:
-        ragged = rng.random() < 0.3            # contig lengths that are no multiple of the grid
-        contigs = [('chr%d' % (i + 1), rng.choice([3, 4, 5]) * B + (rng.choice([0, 37, B // 2]) if ragged else 0)) for i in range(nct)]
+        ragged = rng.random() < 0.5            # contig lengths that are no multiple of the grid / of the number of bins
+        contigs = [('chr%d' % (i + 1), rng.choice([3, 4, 5]) * B + (rng.choice([1, 2, 3, 5, 7, 37, B // 2]) if ragged else 0))
+                   for i in range(nct)]
     maxext = rng.choice([F, F, F // 2, F + 25])          # longest fragment of this library (F + 25: precondition can fail)
     frags = []
     for c, (cn, ln) in enumerate(contigs):
@@ -410,6 +414,19 @@ def random_library(rng, method, big=False, n_small=0):
                               'cell': cell, 'dup_in': rng.random() < 0.1,
                               'r2_unmapped': (not single) and rng.random() < 0.08})
     frags = [f for f in frags if f['l1'] <= f['hi'] - f['lo'] and f['l2'] <= f['hi'] - f['lo']]
+    # molecules whose cut site lies in the first / last few bases of a contig (bins must cover the contig to its very ends):
+    # NlaIII: forward R1 starting at d (site d); reverse R1 ending at ln-d with its CATG soft-clipped (site ln-d)
+    # CHiC:   forward R1 starting at d (site d-1); reverse R1 ending at ln-d (site ln-d)
+    for c, (cn, ln) in enumerate(contigs):
+        for rev in (False, True):
+            if rng.random() < 0.85:
+                d = rng.choice([1, 1, 2, 3])
+                ext = rng.randint(24, min(maxext, 60))
+                lo, hi = (ln - d - ext, ln - d) if rev else (d, d + ext)
+                single = rng.random() < 0.4
+                frags.append({'c': c, 'lo': lo, 'hi': hi, 'rev': rev, 'l1': ext if single else rng.randint(20, ext),
+                              'l2': 0 if single else rng.randint(12, ext), 'valid': rng.random() < 0.85, 'umi': 'GGT', 'cell': 'cellA',
+                              'dup_in': False, 'r2_unmapped': False, 'clip': 4 if (rev and method == 'nla') else 0})
     for c in range(len(contigs)):       # every contig carries reads
         if not any(f['c'] == c for f in frags):
             frags.append({'c': c, 'lo': B + 3, 'hi': B + 43, 'rev': False, 'l1': 30, 'l2': 20, 'valid': True, 'umi': 'AAA',
